@@ -368,8 +368,12 @@ def worker_main(case):
                 log.append(['correct', hx(a[4]), hx(a[5]), res3(r)])
             return r
         setattr(mod, cname, rec_correct)
+        cor = list(common)
+        if case.get('single_top') is not None:
+            # correction given ONE file directly under the root as -i: the root folder is the same, every entry is still processed
+            cor[1] = os.path.join(root, unhx(case['files'][case['single_top']]['path']).decode('latin-1'))
         try:
-            out['cor_rc'] = mod.main(common + ['-c', '-o', outd])
+            out['cor_rc'] = mod.main(cor + ['-c', '-o', outd])
         except BaseException as e:
             out['cor_exc'] = repr(e)
         out['root'] = root
@@ -1019,6 +1023,9 @@ def gen_main_cases(ctx, n):
                 fdam.append([fi, rng.randrange(min(files[fi]['size'], 90)), rng.randrange(1, 256)])
         cases.append({'kind': 'main', 'tool': tool, 'mb': mb, 'ri': ri, 'algo': algo, 'files': files, 'damage': damage, 'dkind': dkind,
                       'file_damage': fdam, 'extra': extra})
+        tops = [j for j, f in enumerate(files) if b'/' not in unhx(f['path'])]
+        if tops and i % 3 == 1:
+            cases[-1]['single_top'] = tops[0]
     return cases
 
 
